@@ -3,7 +3,7 @@ import json, os, re, resource, signal, subprocess, time
 
 VERIF = os.path.dirname(os.path.dirname(os.path.abspath(__file__)))
 HARNESS_DIR = os.path.join(VERIF, 'harness')
-BUILD = os.path.join(VERIF, '.build')
+BUILD = os.environ.get('VERIF_BUILD_DIR') or os.path.join(VERIF, '.build')
 GUARD_FLAGS = '--cfg owlchess_verif'
 
 
@@ -120,7 +120,7 @@ def parse_log(path):
                 res['stats'][key] = round(sum(float(x) for x in mm), 2)
     res['sat_calls'] = len(re.findall(r'Runtime Solver:', txt))
     res['error_lines'] = [l for l in txt.split('\n') if l.startswith('error') or 'internal compiler error' in l
-                          or 'CBMC failed' in l or 'out of memory' in l.lower() or 'Status: ERROR' in l
+                          or 'CBMC failed' in l or 'out of memory' in l.lower() or 'ran out of memory' in l or 'Status: ERROR' in l
                           or 'std::bad_alloc' in l][:10]
     res['no_harness'] = 'No proof harnesses' in txt or 'no harnesses matched' in txt.lower()
     return res
